@@ -115,6 +115,12 @@ pub fn duplicate_checks(ctx: &Ctx, tier: Tier) -> (u64, u64) {
 /// reading of "omits exactly the parts not permitted there"), the source is unchanged, the destination satisfies the
 /// harness's validator and the model invariants (paths and references findable), and its text loads strictly.
 pub fn cross_version_copy(ctx: &Ctx, tier: Tier) -> (u64, u64) {
+    cross_version_copy_with(ctx, tier, false)
+}
+
+/// `only_validity`: report only what concerns the destination being valid in its version (used by C07: every model that
+/// successful editing calls produce is valid), not the comparison with the filtered source (C13's own demand)
+pub fn cross_version_copy_with(ctx: &Ctx, tier: Tier, only_validity: bool) -> (u64, u64) {
     use crate::common::docgen::DocGen;
     use crate::common::invariants::{all_invariants, Scope};
     use crate::common::specgraph::VERSIONS;
@@ -165,7 +171,9 @@ pub fn cross_version_copy(ctx: &Ctx, tier: Tier) -> (u64, u64) {
                         None => ctx.violation("cross-version-copy|copied-although-a-required-part-is-not-permitted", w(json!({"package": pkg.item_name()}))),
                         Some(exp) => {
                             let got = snapshot(&copy);
-                            if let Some(d) = got.diff(&exp, "") {
+                            if only_validity {
+                                // C07 does not judge what exactly is copied
+                            } else if let Some(d) = got.diff(&exp, "") {
                                 ctx.violation(format!("cross-version-copy|differs-from-filtered-source|{}", super::c01::diff_class(&d)), w(json!({"diff": d, "package": pkg.item_name()})));
                             }
                             expected_pkgs.items.push(Item::Node(exp));
